@@ -3,8 +3,10 @@
 Extracted (pure `ast`; raises when the source no longer has a shape whose meaning it can read):
   * `RESTART_DELAY` (µs) and the default of `_restart_limit`;
   * `_delay_if_restart`: the condition under which the delay is awaited, as a Lean `Bool` function of the iteration;
-  * `_run_loop`: the `except` clauses in source order, what each does (`reraise` | `restartOrReraise`), and the
-    condition under which the restarting clause restarts, as a Lean `Bool` function of (limit, counter);
+  * `_run_loop`: the `except` clauses in source order, WHICH ERROR KINDS each one catches (the classes it names — also
+    tuples — classified with Python's builtin hierarchy: ExceptionGroup ⊂ Exception, BaseExceptionGroup ⊂ BaseException,
+    CancelledError ⊂ BaseException, …), what each does (`reraise` | `restartOrReraise`), and the condition under which
+    the restarting clause restarts, as a Lean `Bool` function of (limit, counter);
   * `Actor.start()`: guarded by `is_running`?;
   * `BackgroundService.wait()/stop()`: exception group raised per batch or after all rounds; `stop()` cancels at the
     call / in every round; `stop()` re-raises the group minus `CancelledError`;
@@ -33,6 +35,69 @@ PURE_CALLS = {"split", "total_seconds", "difference"}
 
 class Bad(Exception):
     pass
+
+
+# ----------------------------------------------------------------------------- exception classes
+# Python's builtin exception hierarchy — the part that decides which `except` clause of `_run_loop` catches what
+# `_run()` raised (direct bases; checked against the running interpreter by `_check_hierarchy`).
+BASES: dict[str, list[str]] = {
+    "BaseException": [],
+    "Exception": ["BaseException"],
+    "BaseExceptionGroup": ["BaseException"],
+    "ExceptionGroup": ["BaseExceptionGroup", "Exception"],
+    "CancelledError": ["BaseException"],        # asyncio.CancelledError (3.8+)
+}
+# Error kinds of the model = the coarsest partition of all errors that clauses naming the classes above can tell apart,
+# each with the class whose set of ancestors is exactly what the members of the kind are instances of.
+KIND_CLASS: dict[str, str] = {
+    "exc": "Exception",                 # an Exception that is not a group
+    "excGroup": "ExceptionGroup",       # (a BaseExceptionGroup of Exceptions only IS an ExceptionGroup)
+    "baseExc": "BaseException",         # SystemExit / KeyboardInterrupt / GeneratorExit / user BaseException classes
+    "baseGroup": "BaseExceptionGroup",  # a group with at least one non-Exception member
+    "cancelled": "CancelledError",
+}
+CLASS_ALIASES = {"asyncio.CancelledError": "CancelledError", "asyncio.exceptions.CancelledError": "CancelledError",
+                 "builtins.Exception": "Exception", "builtins.BaseException": "BaseException",
+                 "builtins.ExceptionGroup": "ExceptionGroup", "builtins.BaseExceptionGroup": "BaseExceptionGroup"}
+
+
+def _ancestors(cls: str) -> set[str]:
+    out = {cls}
+    for b in BASES[cls]:
+        out |= _ancestors(b)
+    return out
+
+
+def _check_hierarchy() -> None:
+    """The table above must be what the interpreter says (the extractor never imports the repo, only builtins)."""
+    import asyncio
+    import builtins
+
+    real = {n: (asyncio.CancelledError if n == "CancelledError" else getattr(builtins, n)) for n in BASES}
+    for a, ca in real.items():
+        for b, cb in real.items():
+            if issubclass(ca, cb) != (b in _ancestors(a)):
+                raise Bad(f"exception hierarchy table is wrong about issubclass({a}, {b})")
+
+
+def _handler_classes(h: ast.ExceptHandler) -> list[str]:
+    """The classes named by one `except` clause (a bare `except:` names BaseException)."""
+    if h.type is None:
+        return ["BaseException"]
+    elts = h.type.elts if isinstance(h.type, ast.Tuple) else [h.type]
+    names = []
+    for e in elts:
+        s = CLASS_ALIASES.get(_u(e), _u(e))
+        if s not in BASES:
+            # a class below one of the representatives (ValueError, SystemExit, …) catches only part of a kind
+            raise Bad(f"_run_loop: `except` clause names {s}: not one of {sorted(BASES)}")
+        names.append(s)
+    return names
+
+
+def _kinds_caught(classes: list[str]) -> list[str]:
+    """`isinstance(error, tuple(classes))` as a function of the error kind."""
+    return [k for k, c in KIND_CLASS.items() if any(cls in _ancestors(c) for cls in classes)]
 
 
 # ----------------------------------------------------------------------------- locating
@@ -430,10 +495,8 @@ def _actor(src: str) -> list[str]:
     handlers = []
     allowed = None
     for h in tr.handlers:
-        ty = _u(h.type) if h.type is not None else "BaseException"
-        ty = {"asyncio.CancelledError": "CancelledError", "asyncio.exceptions.CancelledError": "CancelledError"}.get(ty, ty)
-        if ty not in ("CancelledError", "Exception", "BaseException"):
-            raise Bad(f"_run_loop: handler for {ty}")
+        classes = _handler_classes(h)
+        ty = "(" + ", ".join(classes) + ")" if len(classes) != 1 else classes[0]
         restart, reraise = [], []
         for conds, acts in _paths(h.body):
             srcs = [_u(a) for a in acts]
@@ -447,17 +510,30 @@ def _actor(src: str) -> list[str]:
             if allowed is not None:
                 raise Bad("_run_loop: two restarting handlers")
             allowed = _dnf(restart, lambda e: _expr(e, {ctr: "n", "self._restart_limit": "limit"}))
-            handlers.append((ty, "restartOrReraise"))
+            handlers.append((classes, "restartOrReraise"))
         else:
-            handlers.append((ty, "reraise"))
+            handlers.append((classes, "reraise"))
     if allowed is None:
         allowed = "false"
-    out.append("/-- the condition under which `_run_loop` restarts after an `Exception` (`n` = the restart counter). -/\n"
+    out.append("/-- the condition under which the restarting `except` clause of `_run_loop` restarts (`n` = the restart counter). -/\n"
                f"def restartAllowed (limit : Option Nat) (n : Nat) : Bool := {allowed}")
     out.append("inductive Action | reraise | restartOrReraise\nderiving DecidableEq, Repr")
-    hs = ", ".join(f'("{t}", Action.{a})' for t, a in handlers)
-    out.append("/-- the `except` clauses of `_run_loop`, in source order. -/\n"
-               f"def handlers : List (String × Action) := [{hs}]")
+    out.append(
+        "/-- The kinds of error an invocation of `_run()` can end with, as far as Python's builtin class hierarchy lets an\n"
+        "`except` clause of `_run_loop` tell them apart (representative class; its ancestors):\n"
+        + "".join(f"  * `{k}` — `{c}`; caught by a clause naming any of: {', '.join(sorted(_ancestors(c)))}\n"
+                  for k, c in KIND_CLASS.items())
+        + "(`exc`: an `Exception` that is no group; `baseExc`: a `BaseException` outside `Exception` that is neither a group nor\n"
+        "`CancelledError`, e.g. `SystemExit`, `KeyboardInterrupt`, `GeneratorExit`, user classes; `baseGroup`: a\n"
+        "`BaseExceptionGroup` that is not an `ExceptionGroup`, i.e. with at least one non-`Exception` member.) -/\n"
+        "inductive ExcKind | " + " | ".join(KIND_CLASS) + "\nderiving DecidableEq, Repr")
+    hs = ", ".join("([" + ", ".join(f".{k}" for k in _kinds_caught(cs)) + f"], Action.{a})" for cs, a in handlers)
+    out.append("/-- the `except` clauses of `_run_loop`, in source order: the error kinds each one catches (`isinstance` against the\n"
+               "classes it names, by the builtin hierarchy) and what it does. -/\n"
+               f"def handlers : List (List ExcKind × Action) := [{hs}]")
+    hc = ", ".join("[" + ", ".join(f'"{c}"' for c in cs) + "]" for cs, _ in handlers)
+    out.append("/-- the classes named by those clauses (documentation; `handlers` is computed from them). -/\n"
+               f"def handlerClasses : List (List String) := [{hc}]")
 
     # start(): [clear, add(create_task(_run_loop()))] under `not is_running` (or unconditionally)
     guarded = None
@@ -793,6 +869,7 @@ def _cancel_and_await(src: str) -> list[str]:
 
 
 def generate(repo: pathlib.Path) -> str:
+    _check_hierarchy()
     a = _actor((repo / SOURCES[0]).read_text())
     b = _service((repo / SOURCES[1]).read_text())
     c = _cancel_and_await((repo / SOURCES[2]).read_text())
